@@ -62,22 +62,38 @@ def main():
         print(o1[-600:], o2[-600:], o3[-600:])
         return 1
     # run the registered check against /repo + change
-    import fcntl
-    lock = open('/tmp/seedtest.lock', 'w')
-    fcntl.flock(lock, fcntl.LOCK_EX)     # one seed at a time in /repo
-    rc, out = sh('git -C /repo apply %s' % change, '/repo')
-    if rc:
-        print('cannot apply to /repo', out)
-        return 2
-    try:
-        env = dict(os.environ, VERIF_EVIDENCE_DIR='/tmp/seedtest-evidence')
-        rc, out = sh('./check %s quick' % prop, VERIF, env)
-    finally:
-        sh('git -C /repo checkout -- .', '/repo')
-        fcntl.flock(lock, fcntl.LOCK_UN)
+    # run the registered check on the tree with the change applied.  By default the scratch worktree itself is the
+    # analysed tree (VERIF_REPO), so that sweeps copying /repo at the same time never see a seed; with
+    # SEEDTEST_IN_REPO=1 the patch is applied to /repo and reverted straight afterwards.
+    if os.environ.get('SEEDTEST_IN_REPO'):
+        import fcntl
+        lock = open('/tmp/seedtest.lock', 'w')
+        fcntl.flock(lock, fcntl.LOCK_EX)     # one seed at a time in /repo
+        rc, out = sh('git -C /repo apply %s' % change, '/repo')
+        if rc:
+            print('cannot apply to /repo', out)
+            return 2
+        try:
+            env = dict(os.environ, VERIF_EVIDENCE_DIR='/tmp/seedtest-evidence')
+            rc, out = sh('./check %s quick' % prop, VERIF, env)
+        finally:
+            sh('git -C /repo checkout -- .', '/repo')
+            fcntl.flock(lock, fcntl.LOCK_UN)
+        how = './check %s quick (patch applied to /repo, reverted afterwards)' % prop
+    else:
+        rc, out = sh('git apply %s' % change, wt)
+        if rc:
+            print('cannot re-apply change', out)
+            return 2
+        try:
+            env = dict(os.environ, VERIF_REPO=wt, VERIF_EVIDENCE_DIR=os.path.join(wt, 'SEED', '.evidence'))
+            rc, out = sh('./check %s quick' % prop, VERIF, env)
+        finally:
+            sh('git checkout -- . && git clean -fdq -e SEED -e target', wt)
+        how = 'VERIF_REPO=<scratch worktree with the patch applied> ./check %s quick' % prop
     caught = rc == 1 and ('VIOLATION property=%s' % prop) in out
     lines = [l for l in out.splitlines() if l.startswith(('VIOLATION', '  rule', '  key', '  detail'))][:12]
-    meta['check'] = {'cmd': './check %s quick (patch applied to /repo, reverted afterwards)' % prop, 'exit': rc, 'caught': caught, 'report': lines}
+    meta['check'] = {'cmd': how, 'exit': rc, 'caught': caught, 'report': lines}
     print('check exit %d caught=%s' % (rc, caught))
     print('\n'.join(lines))
     dst = os.path.join(VERIF, 'seeded', '%s-%s' % (prop, name))
